@@ -594,7 +594,7 @@ fn strategy() -> impl Strategy<Value = Case> {
 }
 
 pub fn run(ctx: &mut Ctx) {
-    ctx.rule = "ceremonies (registration / assertion through Client, assertions and registrations also at the CTAP2 level, where extension inputs reach the authenticator whatever it advertises) over authenticator configurations {no hmac-secret, UV-only, UV-only+mc, with non-UV secret, with non-UV secret+mc} x verified/unverified user x UV requirement, stores with 1-4 credentials (some ids are prefixes of others) holding no / gated-only / both secrets (32 bytes, sometimes 1 / 64 / 65 / 96 bytes), PRF inputs of any length (one or two values, eval and evalByCredential with valid, base64, empty, undecodable and unlisted keys, prf / prfAlreadyHashed / both), allow list present or not. Non-trivial = a ceremony whose PRF result was compared with the oracle, or a malformed request; distinct by case.".into();
+    ctx.rule = "ceremonies (registration / assertion through Client, assertions and registrations also at the CTAP2 level, where extension inputs reach the authenticator whatever it advertises) over authenticator configurations {no hmac-secret, UV-only, UV-only+mc, with non-UV secret, with non-UV secret+mc} x verified/unverified user x UV requirement, stores with 1-4 credentials (some ids are prefixes of others) holding no / gated-only / both secrets (32 bytes, sometimes 1 / 64 / 65 / 96 bytes), PRF inputs of any length (one or two values, eval and evalByCredential with valid, base64, empty, undecodable and unlisted keys, prf / prfAlreadyHashed / both), allow list present or not. Since rounds 7/8: registrations that succeed without a due PRF result are judged, credProps alongside PRF, validation methods that report verification without advertising it. Non-trivial = a ceremony whose PRF result was compared with the oracle, or a malformed request; distinct by case.".into();
     ctx.assumptions = vec![
         "HMAC-SHA-256 is implemented in the harness from SHA-256 (RFC 2104); salts are SHA-256(\"WebAuthn PRF\" || 0x00 || input) or the raw 32 bytes".into(),
         "at registration a verified ceremony may use either secret (the statement demands the gated secret 'always' only for assertions); an unverified one must use the non-gated secret".into(),
